@@ -89,3 +89,26 @@ def validate_abstxn(trace_path, workers, keys, atomic=True, exact=True, timeout=
     finally:
         if own:
             shutil.rmtree(workdir, ignore_errors=True)
+
+
+def validate_trace(module, cfg_text, trace_path, timeout=600):
+    """Generic trace validation run (module EXTENDS the spec; HIGHWATER protocol)."""
+    workdir = tempfile.mkdtemp(prefix="verif-tlc-", dir=scratch_root())
+    try:
+        rc, out, wall = _run_tlc(module, cfg_text, workdir, 1, {"TRACE": os.path.abspath(trace_path)},
+                                 timeout=timeout, deque=True)
+        hw = re.findall(r'<<"HIGHWATER", (\d+), (\d+)>>', out)
+        gen, dist = parse_stats(out)
+        res = dict(rc=rc, wall=wall, states=gen, distinct=dist, out=out)
+        if hw:
+            best = max(hw, key=lambda x: int(x[0]))
+            res["highwater"], res["length"] = int(best[0]), int(best[1])
+            res["accepted"] = (res["highwater"] == res["length"] + 1)
+        else:
+            res["highwater"] = res["length"] = -1
+            res["accepted"] = False
+        bad = [ln for ln in out.splitlines() if ln.startswith("Error:") and "Postcondition Accepted" not in ln]
+        res["machinery_error"] = (not hw) or bool(bad) or rc == 124
+        return res
+    finally:
+        shutil.rmtree(workdir, ignore_errors=True)
